@@ -143,6 +143,11 @@ H('C23', 'Every ordered pair of 12 column types x a column of 15/25 stored value
          'with a fresh recomputation).',
   tech='exhaustive enumeration of type pairs x stored-value menus on the real engine')
 
+E('C17', 'Predicate formulas from a grammar (63 contexts x 12/62 atoms, two- and three-hole contexts, broken '
+         'texts) stored as ACL rules, dropdown conditions and trigger conditions (text and config) x 16/35 '
+         'rename cases: the new parsed tree equals the old tree with exactly the context\'s references '
+         'renamed, stored parsed form consistent, other text and unparsable formulas untouched.')
+
 PLANNED = {}
 
 
